@@ -780,14 +780,29 @@ class Interp:
     def dict_building_loop(self, st, env, f):
         """The idiom   d = {} ... for T in ITER: d[K] = V   (K, V do not mention d; d is an empty dict when the loop starts)
         is the dict comprehension {K: V for T in ITER}; evaluated as such (later keys overwrite earlier ones, as in the loop)."""
-        if len(st.body) != 1 or not isinstance(st.body[0], ast.Assign) or len(st.body[0].targets) != 1:
+        # optional guards: leading `if C: continue` statements and / or one `if C:` around the store (same order of evaluation and
+        # short-circuiting as the conditions of the comprehension)
+        body = list(st.body)
+        ifs = []
+        while len(body) > 1:
+            g = body.pop(0)
+            if not (isinstance(g, ast.If) and not g.orelse and len(g.body) == 1 and isinstance(g.body[0], ast.Continue)):
+                return False
+            ifs.append(ast.UnaryOp(op=ast.Not(), operand=g.test))
+        if not body:
             return False
-        tg = st.body[0].targets[0]
+        last = body[0]
+        if isinstance(last, ast.If) and not last.orelse and len(last.body) == 1:
+            ifs.append(last.test)
+            last = last.body[0]
+        if not isinstance(last, ast.Assign) or len(last.targets) != 1:
+            return False
+        tg = last.targets[0]
         if not (isinstance(tg, ast.Subscript) and isinstance(tg.value, ast.Name)):
             return False
         name = tg.value.id
         mentions = lambda node: any(isinstance(x, ast.Name) and x.id == name for x in ast.walk(node))
-        if mentions(tg.slice) or mentions(st.body[0].value) or mentions(st.iter) or mentions(st.target):
+        if mentions(tg.slice) or mentions(last.value) or mentions(st.iter) or mentions(st.target) or any(mentions(c) for c in ifs):
             return False
         try:
             cur = env.lookup(name)
@@ -795,8 +810,8 @@ class Interp:
             return False
         if not (isinstance(cur, dict) and len(cur) == 0):
             return False
-        comp = ast.DictComp(key=tg.slice, value=st.body[0].value,
-                            generators=[ast.comprehension(target=st.target, iter=st.iter, ifs=[], is_async=0)])
+        comp = ast.DictComp(key=tg.slice, value=last.value,
+                            generators=[ast.comprehension(target=st.target, iter=st.iter, ifs=ifs, is_async=0)])
         ast.copy_location(comp, st)
         ast.fix_missing_locations(comp)
         val = self.ev(comp, env, f)
